@@ -175,7 +175,7 @@ def show(n, depth=0):
     if k == 'Delete':
         return 'delete %s' % show(n.get('e'), d)
     if k == 'Decl':
-        return '; '.join('%s %s%s' % (x.get('ty', ''), x.get('name', ''), (' = ' + show(x['init'], d)) if 'init' in x else '') for x in n.get('d', []))
+        return '; '.join('%s %s%s' % (x.get('ty', ''), (_REN[0] or {}).get(x.get('id'), x.get('name', '')), (' = ' + show(x['init'], d)) if 'init' in x else '') for x in n.get('d', []))
     if k == 'Return':
         return 'return %s' % show(n.get('e'), d)
     if k == 'Throw':
